@@ -105,6 +105,8 @@ def mtype(m):
         return G.CCS
     if ct == 23:
         return G.APPDATA
+    if ct == 21:
+        return G.ALERT_NOCERT
     return getattr(m, "handshakeType", None)
 
 
@@ -132,6 +134,10 @@ def make_extra(kind, ver, captured):
         return M.ServerHelloDone().create()
     if kind == "appdata":
         return M.ApplicationData().create(bytearray(b"EARLY-DATA"))
+    if kind == "empty_appdata":
+        return M.ApplicationData().create(bytearray(0))
+    if kind == "alert_no_cert":
+        return M.Alert().create(41, 1)
     if kind == "copy":
         return captured
     if kind == "cert_req":
@@ -151,12 +157,14 @@ def make_extra(kind, ver, captured):
 
 
 EXTRAS = ["ccs", "hello_request", "key_update", "nst", "finished", "shd",
-          "appdata", "copy", "empty_cert", "cert_req", "prot_ccs"]
+          "appdata", "copy", "empty_cert", "cert_req", "prot_ccs",
+          "empty_appdata", "alert_no_cert"]
 EXTRA_TYPE = {"ccs": G.CCS, "hello_request": G.HELLO_REQUEST,
               "key_update": G.KEY_UPDATE, "nst": G.NST,
               "finished": G.FINISHED, "shd": G.SHD, "appdata": G.APPDATA,
               "empty_cert": G.CERT, "cert_req": G.CERT_REQ,
-              "prot_ccs": G.CCS}
+              "prot_ccs": G.CCS, "empty_appdata": G.APPDATA,
+              "alert_no_cert": G.ALERT_NOCERT}
 
 
 def build(seed, sc, chooser, victim, rules):
@@ -427,9 +435,10 @@ def run(job, streams=None):
         # ---- abort point: after reading the first message that is out of
         # place the victim may send an alert, nothing else
         if legal is False and op in ("insert", "replace", "swap", "dup"):
-            emitted = [G.CCS if d[0] == 20 else (G.APPDATA if d[0] == 23
-                                                 else d[1])
-                       for d in ip.sent if d[0] in (20, 22, 23)]
+            emitted = [G.CCS if d[0] == 20 else (
+                G.APPDATA if d[0] == 23 else (
+                    G.ALERT_NOCERT if d[0] == 21 else d[1]))
+                for d in ip.sent if d[0] in (20, 21, 22, 23)]
             # first emitted message that is out of place; optional messages
             # of the honest flight (CertificateRequest) may simply be absent
             hon = list(seq)
@@ -450,9 +459,7 @@ def run(job, streams=None):
             buf = b""
             bstamp = None
             for (typ, data), stp in zip(rt.accepted, rt.stamps):
-                if typ == 20:
-                    items.append(stp)
-                elif typ == 23 and data:
+                if typ in (20, 21, 23):
                     items.append(stp)
                 elif typ == 22:
                     if not buf:
